@@ -66,7 +66,10 @@ impl Sys for MapOr {
         s.merge(o.clone())
     }
     fn reads(s: &S) -> String {
-        format!("{} {}", content(s), map_top_reads(s, KEYS))
+        // nested Orswot contexts are part of the reads here (they are not path dependent in a correct
+        // implementation; only Map<_,MVReg> excludes nested contexts, see DESIGN.md §3.5)
+        let nested: Vec<(u8, String)> = s.iter().map(|e| (*e.val.0, super::orswot::orswot_reads(e.val.1))).collect();
+        format!("{} {} nested={:?}", content(s), map_top_reads(s, KEYS), nested)
     }
     fn content(s: &S) -> String {
         content(s)
@@ -155,7 +158,37 @@ impl Sys for MapOr {
         a.validate_merge(b).map_err(|e| format!("{:?}", e))
     }
     fn double_spent(a: &S, b: &S) -> bool {
-        map_double_spent(a, b)
+        if map_double_spent(a, b) {
+            return true;
+        }
+        // a dot may also witness different *members* under the same key on the two sides
+        for x in a.iter() {
+            if let Some(y) = b.get(x.val.0).val {
+                if <super::orswot::Or as Sys>::double_spent(x.val.1, &y) {
+                    return true;
+                }
+            }
+        }
+        false
+    }
+    fn double_spent_site(a: &S, b: &S) -> &'static str {
+        if map_double_spent(a, b) {
+            return "";
+        }
+        // only nested: do all keys that carry a nested double spend have comparable (non-concurrent) entry clocks?
+        let mut all_comparable = true;
+        for x in a.keys() {
+            if let (Some(va), Some(vb)) = (a.get(x.val).val, b.get(x.val).val) {
+                if <super::orswot::Or as Sys>::double_spent(&va, &vb) && x.rm_clock.concurrent(&b.get(x.val).rm_clock) {
+                    all_comparable = false;
+                }
+            }
+        }
+        if all_comparable {
+            "-nested-under-comparable-entry-clocks"
+        } else {
+            "-nested"
+        }
     }
     fn reset_remove(s: &mut S, c: &crdts::VClock<u8>) {
         s.reset_remove(c)
